@@ -647,7 +647,7 @@ type evRun struct {
 	ls   []*c31Ledger
 	hist []string
 	// per-ledger writes that carried an idempotency key (candidates for an exact replay)
-	ikOps                                                  map[string][]evOp
+	ikOps                                                    map[string][]evOp
 	bulkCommits, firedFaults, failedOrDry, firstWrites, hits int
 }
 
